@@ -1630,6 +1630,12 @@ func scenSnapshotVsInstall(e *engineA) error {
 		e.cl.fsmOpPad(1, l, "update", pad)
 	}
 	f := e.others(l)[e.rng.Intn(2)]
+	if e.rng.Intn(3) == 0 {
+		// the node whose snapshot is held is the leader: cut off, it is
+		// replaced, and comes back as a follower that needs the new
+		// leader's snapshot
+		f = l
+	}
 	e.sleepHB(1, 2)
 	// held either right after the capture, or after the label was written
 	// to its temporary file and before it is renamed into place (the
@@ -1648,6 +1654,22 @@ func scenSnapshotVsInstall(e *engineA) error {
 		return fmt.Errorf("snapshot goroutine never reached the capture point")
 	}
 	e.isolate(f, true)
+	if f == l {
+		var nl *Node
+		if !e.waitFor(100, func() bool {
+			for _, o := range e.others(f) {
+				if info, ok := o.info(false); ok && info.State == raft.Leader {
+					nl = o
+					return true
+				}
+			}
+			return false
+		}) {
+			e.pc.release(f.dir, holdAt)
+			return fmt.Errorf("the others elected no leader")
+		}
+		l = nl
+	}
 	for i := 0; i < 15+e.rng.Intn(30); i++ {
 		if r := e.cl.fsmOpPad(1, l, "update", pad); !r.ok {
 			break
